@@ -10,7 +10,7 @@ from props.C06 import describe, rules
 
 REQUIRED_THEOREMS = ['Usid.C19.sidpy_coords', 'Usid.C19.image_pixels', 'Usid.C19.array_rejected_before_file',
                      'Usid.C19.array_valid_iff', 'Usid.C19.array_layout', 'Usid.C19.unfixed_reshape_counterexample']
-RULE = ('[also: supplied parameters named like the library\'s book-keeping attributes (timestamp, machine_id)] [also: indexed-colour and bilevel images] [also: labelled datasets one of whose axes was re-assigned by attribute (internal axis dictionary out of order)] [also: images as comma-separated text, colour png, tif, bmp; resampling filters NEAREST / BILINEAR / BOX; the recorded binning, filter, image_min / image_max observed] [also: an extra dataset holding an integer that single precision cannot represent, element kinds of the stored extras observed] [also: dimension / axis values that are not increasing, lazy inputs in several chunks, dtype= / compression= keyword arguments, verbose=True] three families. ARRAY: generator datasets through ArrayTranslator as numpy or dask arrays, dimension lists given '
+RULE = ('[also: text images with negative values, normalised] [also: supplied parameters named like the library\'s book-keeping attributes (timestamp, machine_id)] [also: indexed-colour and bilevel images] [also: labelled datasets one of whose axes was re-assigned by attribute (internal axis dictionary out of order)] [also: images as comma-separated text, colour png, tif, bmp; resampling filters NEAREST / BILINEAR / BOX; the recorded binning, filter, image_min / image_max observed] [also: an extra dataset holding an integer that single precision cannot represent, element kinds of the stored extras observed] [also: dimension / axis values that are not increasing, lazy inputs in several chunks, dtype= / compression= keyword arguments, verbose=True] three families. ARRAY: generator datasets through ArrayTranslator as numpy or dask arrays, dimension lists given '
         'fastest first (or a bare Dimension), with/without parameter dictionaries and extra datasets (lists, arrays, '
         'dask arrays), a pre-existing file at the output path or none, and one (sometimes two) invalidities out of: '
         'non-string argument, data that is not an array / not 2D, dimension lists of the wrong type or whose sizes do not '
@@ -102,8 +102,17 @@ def generate(seed, tier):
             if cases[-1]['fmt'] == 'rgb':
                 cases[-1]['pix_gb'] = [[[rv.randint(0, 255), rv.randint(0, 255)] for _ in range(cases[-1]['w'])]
                                        for _ in range(cases[-1]['h'])]
+        if cases[-1]['fmt'] in ('txt', 'csv') and rv.random() < 0.5:
+            cases[-1]['signed'] = True          # a height map / difference image: negative values
+            if cases[-1]['h'] * cases[-1]['w'] > 1:
+                cases[-1]['normalize'] = rv.random() < 0.7
         if cases[-1]['bin'] is not None and rv.random() < 0.6:
             cases[-1]['interp'] = rv.choice(['NEAREST', 'BILINEAR', 'BOX'])
+    for j in range({'quick': 6, 'thorough': 40, 'search': 20}[tier]):       # signed text images, normalised
+        rs = derived_rng(seed, 'C19sg', j)
+        c = _gen_image(rs, j, rs.randint(1, 5), rs.randint(2, 5))
+        c.update(fmt=rs.choice(['txt', 'csv']), signed=True, normalize=True, preexisting=False, bin=None)
+        cases.append(c)
     if tier != 'quick':
         for j, (h, w) in enumerate(itertools.product(range(1, 7), repeat=2)):      # every size once, plain
             c = _gen_image(derived_rng(seed, 'C19ix', j), j, h, w)
@@ -376,9 +385,9 @@ def _run_image(inp, work):
     elif inp['fmt'] == 'bilevel':
         Image.fromarray(pix > 127).convert('1').save(img_path)
     elif inp['fmt'] == 'csv':
-        np.savetxt(img_path, pix.astype(float), delimiter=',')
+        np.savetxt(img_path, pix.astype(float) - (128 if inp.get('signed') else 0), delimiter=',')
     else:
-        np.savetxt(img_path, pix.astype(float))
+        np.savetxt(img_path, pix.astype(float) - (128 if inp.get('signed') else 0))
     h5_path = os.path.join(work, 'given.h5') if inp['h5_given'] else os.path.join(work, 'picture.h5')
     if inp['preexisting']:
         with open(h5_path, 'wb') as fh:
@@ -398,7 +407,8 @@ def _run_image(inp, work):
         return out
     out['returned'] = os.path.abspath(r[1]) == os.path.abspath(h5_path)
     # the processed image, recomputed with PIL / numpy directly
-    proc = pix.astype(float) if inp['fmt'] in ('txt', 'csv') else np.asarray(Image.open(img_path).convert(mode='L'))
+    proc = (pix.astype(float) - (128 if inp.get('signed') else 0)) if inp['fmt'] in ('txt', 'csv') else \
+        np.asarray(Image.open(img_path).convert(mode='L'))
     if inp['bin'] is not None:
         b = inp['bin'] if isinstance(inp['bin'], list) else [inp['bin'], inp['bin']]
         us, vs = int(proc.shape[0] / b[0]), int(proc.shape[1] / b[1])
@@ -578,8 +588,8 @@ def model_requests_obs(inp, obs):
             axes = [axes[j] for j in order]
         return [{'op': 'trans.sidpy', 'shape': shape, 'flat': flat, 'axes': axes, 'unfixed': False}]
     if inp['kind'] == 'image':
-        if inp['bin'] is not None or inp['normalize'] or 'err' in obs or inp['preexisting']:
-            return []
+        if inp['bin'] is not None or inp['normalize'] or 'err' in obs or inp['preexisting'] or inp.get('signed'):
+            return []          # (the model's pixels are natural numbers; signed / resampled / normalised images: oracle only)
         if inp['fmt'] in ('rgb', 'palette', 'bilevel'):
             # colour is reduced to grey levels by PIL (not modelled): the model is handed the decoded grey image
             return [{'op': 'trans.image', 'shape': [inp['h'], inp['w']],
